@@ -175,7 +175,8 @@ def ob_load_vertex(chk: Check) -> None:
                 return False
             return And(Eq(v.t["dom"], sto(v.t0["dom"], k, True)), Eq(v.t["val"], sto(v.t0["val"], k, o)),
                        frame(p, init, {"self.vertex", "output"}))
-        step_ob(chk, eng, ls, {"self": selfv, "key": k, "statement": s.statement(kind, o)}, f, f"loop-step::{kind}",
+        step_ob(chk, eng, ls, {"self": selfv, ls.target(0, "key"): k, ls.target(1, "statement"): s.statement(kind, o)}, f,
+                f"loop-step::{kind}",
                 "one iteration of the loop over self.dependencies on a statement whose name o is held by "
                 f"{'outputs' if kind == 'temp' else 'persistent'}, from ANY vertex map: vertex' = vertex[key := o] and "
                 "nothing else changes (hence after the loop vertex = {k: name of statement k} for every statement)",
@@ -190,6 +191,8 @@ def ob_load_edges(chk: Check) -> None:
     k, o, x = eng.sym_int("key"), eng.sym_str("out"), eng.sym_str("probe.x")
     prod = eng.sym_int("ghost.last_producer_of_x")
     lsA = LoopStep(REL, "DAGAnalyzer.load_edges", 0)
+    RTK = lsA.local_with_init("{}", "ref_to_keys")          # the producer index, whatever the local is called
+    CNT = lsA.local_with_init("0", "count_edges")
     for kind in ("temp", "pers"):
         rtk = NameIntMap(eng, "ref_to_keys")
 
@@ -199,12 +202,12 @@ def ob_load_edges(chk: Check) -> None:
         def postA(p: PathResult, init: Dict[str, Any]) -> Any:
             if p.kind != "return" or not isinstance(p.value, dict):
                 return False
-            m = p.value.get("ref_to_keys")
+            m = p.value.get(RTK)
             if not isinstance(m, NameIntMap):
                 return False
             return And(Eq(m.t["dom"], sto(m.t0["dom"], o, True)), Eq(m.t["val"], sto(m.t0["val"], o, k)),
-                       inv(m, Ite(Eq(o, x), k, prod)), frame(p, init, {"ref_to_keys", "reference"}))
-        step_ob(chk, eng, lsA, {"ref_to_keys": rtk, "key": k, "statement": s.statement(kind, o),
+                       inv(m, Ite(Eq(o, x), k, prod)), frame(p, init, {RTK}))
+        step_ob(chk, eng, lsA, {RTK: rtk, lsA.target(0, "key"): k, lsA.target(1, "statement"): s.statement(kind, o),
                                 "self": ObjV(s.DA, {"dependencies": Opaque("dependencies")})},
                 f, f"producer-index::loop-step::{kind}",
                 "first loop, one iteration from ANY ref_to_keys: ref_to_keys' = ref_to_keys[o := key]; invariant (for every "
@@ -223,7 +226,7 @@ def ob_load_edges(chk: Check) -> None:
     def postB(p: PathResult, init: Dict[str, Any]) -> Any:
         if p.kind != "return" or not isinstance(p.value, dict):
             return False
-        e, c2 = p.value["self"].attrs.get("edges"), p.value.get("count_edges")
+        e, c2 = p.value["self"].attrs.get("edges"), p.value.get(CNT)
         if not isinstance(e, EdgeMap):
             return False
         hit = rtk.has(iv, True)
@@ -231,8 +234,9 @@ def ob_load_edges(chk: Check) -> None:
         want_dom = Ite(hit, sto(e.t0["dom"], c, True), e.t0["dom"])
         return And(Eq(e.t["pairs"], want_pairs), Eq(e.t["dom"], want_dom), Eq(c2, Ite(hit, smt.Add(c, 1), c)),
                    Implies(e.has(i), And(Ge(i, 0), Lt(i, c2))), Ge(c2, 0),
-                   frame(p, init, {"self.edges", "count_edges", "key"}))
-    step_ob(chk, eng, lsB, {"ref_to_keys": rtk, "self": selfv, "count_edges": c, "sub_key": sk, "input_val": iv}, f,
+                   frame(p, init, {"self.edges", CNT}))
+    step_ob(chk, eng, lsB, {RTK: rtk, "self": selfv, CNT: c, lsB.target(0, "sub_key"): sk,
+                            lsB.target(0, "input_val", inner=True): iv}, f,
             "edges::loop-step",
             "second loop, one iteration for a pair (consumer sub_key, name input_val it reads) from ANY edges / counter: if "
             "input_val is produced, the pair (ref_to_keys[input_val], sub_key) is added to the edge multiset under the key "
@@ -258,10 +262,10 @@ def ob_load_edges(chk: Check) -> None:
             body = body[0].body
         inits = {ast.unparse(t): ast.unparse(st.value) for st in body if isinstance(st, (ast.Assign, ast.AnnAssign))
                  and st.value is not None for t in (st.targets if isinstance(st, ast.Assign) else [st.target])}
-        if inits.get("count_edges") != "0":
-            probs.append(f"count_edges initialised as {inits.get('count_edges')!r}")
-        if inits.get("ref_to_keys") != "{}":
-            probs.append(f"ref_to_keys initialised as {inits.get('ref_to_keys')!r}")
+        if inits.get(CNT) != "0" or list(inits.values()).count("0") != 1:
+            probs.append(f"edge counter initialised as {inits.get(CNT)!r}")
+        if inits.get(RTK) != "{}" or list(inits.values()).count("{}") != 1:
+            probs.append(f"producer index initialised as {inits.get(RTK)!r}")
         rest = [st for st in body if not isinstance(st, (ast.Assign, ast.AnnAssign, ast.For))]
         if rest or len([st for st in body if isinstance(st, ast.For)]) != 2:
             probs.append(f"unexpected statements next to the two loops: {[ast.unparse(st)[:40] for st in rest]}")
@@ -602,12 +606,14 @@ def ob_check_overwriting(chk: Check) -> None:
             e = p.value
             return And(is_semantic_error(p, "1-2-2"), Ge(cnt2(v), 2),
                        Eq(e.kwargs.get("varId_value"), v) if isinstance(e, ObjV) and "varId_value" in e.kwargs else False)
-        if p.kind != "return" or not isinstance(p.value, dict) or not isinstance(p.value.get("seen"), NameBag):
+        if p.kind != "return" or not isinstance(p.value, dict) or not isinstance(p.value.get(SEEN), NameBag):
             return False
-        sn = p.value["seen"]
+        sn = p.value[SEEN]
         return And(Le(cnt2(v), 1), Eq(sn.t["cnt"], sto(sn.t0["cnt"], v, 1)), Iff(sn.has(x), Ge(cnt2(x), 1)), Le(cnt2(x), 1),
-                   frame(p, init, {"seen"}))
-    step_ob(chk, eng, ls, {"seen": seen, "statement": stmt, "self": ObjV(s.DA, {})}, f, "loop-step::raises-iff-second-assignment",
+                   frame(p, init, {SEEN}))
+    SEEN = ls.local_with_init("set()", "seen")
+    step_ob(chk, eng, ls, {SEEN: seen, ls.target(0, "statement"): stmt, "self": ObjV(s.DA, {})}, f,
+            "loop-step::raises-iff-second-assignment",
             "one iteration on a statement assigning name v from ANY `seen` (ghost count(y) = number of statements processed so "
             "far that assign y; invariant: y in seen <=> count(y) >= 1, and count(y) <= 1 while nothing was raised): it raises "
             "SemanticError 1-2-2 (varId_value = v) <=> count'(v) = 2, else seen' = seen U {v} and the invariant holds again.  "
@@ -794,7 +800,7 @@ def ob_visit_start(chk: Check, kinds: Sequence[str]) -> None:
                        Eq(d.t["dom"], sto(d.t0["dom"], n, True)), Eq(me.attrs.get("number_of_statements"), smt.Add(n, 1)),
                        frame(p, init, {"self.dependencies", "self.number_of_statements", "self.alias", "self.current_deps",
                                        "self.is_first_assignment"}))
-        step_ob(chk, eng, ls, {"self": selfv, "child": child}, f, f"statement-loop-step::{kind}",
+        step_ob(chk, eng, ls, {"self": selfv, ls.target(0, "child"): child}, f, f"statement-loop-step::{kind}",
                 (f"one iteration of the statement loop on a `{kind}` child from ANY analyzer state: " +
                  ("is_first_assignment is True when the child is visited; the record returned by statement_structure() is "
                   "stored under the key number_of_statements, which is then incremented; alias and current_deps are replaced "
